@@ -1,6 +1,7 @@
 package main
 
 import (
+	"github.com/styrainc/regal/internal/lsp"
 	"context"
 	"fmt"
 	"sort"
@@ -108,6 +109,19 @@ func conflictSites(b *bundle.Bundle) []string {
 }
 
 func init() {
+	// internal/lsp getRangeForViolation on a violation location
+	register("c07.lsprange", func(req map[string]any) (any, error) {
+		var end *[2]int
+		if e, ok := req["end"].([]any); ok && len(e) == 2 {
+			end = &[2]int{int(e[0].(float64)), int(e[1].(float64))}
+		}
+		var text *string
+		if t, ok := req["text"].(string); ok {
+			text = &t
+		}
+		r := lsp.VerifRangeForViolation(num(req, "row"), num(req, "col"), end, text)
+		return []uint{r[0], r[1], r[2], r[3]}, nil
+	})
 	// the shared location helpers through the real OPA: result.location on a node with a location string
 	register("c07.loc", func(req map[string]any) (any, error) {
 		lines := []any{}
